@@ -62,6 +62,62 @@ MUTANTS = [
  ('C02-7', 'C02', K + 'Surface/ConversionSurfaceMCNPToT4.py',
   "    return SurfaceCollection([(cone, 1), (plane, -int(nappe))])",
   "    return SurfaceCollection([(cone, 1), (plane, int(nappe))])"),
+ # ---- C03
+ ('C03-1', 'C03', K + 'Surface/MacroBodies.py',
+  "    side_bc = 1 if scal(normal_bc, vec_a) < 0. else -1",
+  "    side_bc = 1 if scal(normal_bc, vec_a) > 0. else -1"),
+ ('C03-2', 'C03', K + 'Surface/MacroBodies.py',
+  "        (MS.C, base_bottom + [radius] + height, 1),\n        (MS.P, planeParamsFromNormalAndPoint(height, base_top), 1),\n        (MS.P, planeParamsFromNormalAndPoint(height, base_bottom), -1),",
+  "        (MS.C, base_bottom + [radius] + height, 1),\n        (MS.P, planeParamsFromNormalAndPoint(height, base_bottom), -1),\n        (MS.P, planeParamsFromNormalAndPoint(height, base_top), 1),"),
+ ('C03-3', 'C03', K + 'Surface/MacroBodies.py',
+  "        if scal(dist, plane_params[:3]) > 0:",
+  "        if scal(dist, plane_params[:3]) < 0:"),
+ ('C03-4', 'C03', K + 'Surface/MacroBodies.py',
+  "    dist_to_apex = rad0 / (rad0 - rad1)",
+  "    dist_to_apex = rad1 / (rad0 - rad1)"),
+ ('C03-5', 'C03', K + 'Surface/MacroBodies.py',
+  "    sign_c = 1 if mixed(vec_a, vec_b, height) < 0. else -1",
+  "    sign_c = -1"),
+ ('C03-6', 'C03', K + 'Surface/MacroBodies.py',
+  "        vec_c = rotate(vec_a, renorm(height), 2. * math.pi / 3.)",
+  "        vec_c = rotate(vec_a, renorm(height), -2. * math.pi / 3.)"),
+ ('C03-7', 'C03', K + 'Surface/MacroBodies.py',
+  "        (MS.P, [0, 1, 0, ymax], 1),\n        (MS.P, [0, 1, 0, ymin], -1),",
+  "        (MS.P, [0, 1, 0, ymin], -1),\n        (MS.P, [0, 1, 0, ymax], 1),"),
+ ('C03-8', 'C03', K + 'Surface/MacroBodies.py',
+  "        vec_min = renorm(cross_prod, params[9])\n        ellipse_params = [1. / scal(vec_maj, vec_maj),\n                          1. / params[9]**2]",
+  "        vec_min = renorm(cross_prod, params[9])\n        ellipse_params = [1. / params[9]**2,\n                          1. / scal(vec_maj, vec_maj)]"),
+ # ---- C04
+ ('C04-1', 'C04', 'MIP/geom/transforms.py',
+  "    xp = b1*x + b4*y + b7*z\n    yp = b2*x + b5*y + b8*z\n    zp = b3*x + b6*y + b9*z",
+  "    xp = b1*x + b2*y + b3*z\n    yp = b4*x + b5*y + b6*z\n    zp = b7*x + b8*y + b9*z"),
+ ('C04-2', 'C04', K + 'Transformation/TransformationQuad.py',
+  "    m_mat = np.matmul(r_mat, q_mat)",
+  "    m_mat = np.matmul(q_mat, r_mat)"),
+ ('C04-3', 'C04', K + 'FileHandlers/Parser/ParseMCNPCell.py',
+  "            if '*' in elt:\n                trcl_params[3:12] = list(map(to_cos, trcl_params[3:12]))",
+  "            if False:\n                trcl_params[3:12] = list(map(to_cos, trcl_params[3:12]))"),
+ ('C04-4', 'C04', K + 'Transformation/Transformation.py',
+  "    row_2 = vect(row_0, row_1)\n    matrix[3 * i_row:3 * i_row + 3] = row_2",
+  "    row_2 = vect(row_1, row_0)\n    matrix[3 * i_row:3 * i_row + 3] = row_2"),
+ ('C04-5', 'C04', K + 'Volume/ConstructVolumeT4.py',
+  "                surf_id = tr_surf_id % 1000\n                cell_id = tr_surf_id // 1000",
+  "                surf_id = tr_surf_id % 1000\n                cell_id = max(1, tr_surf_id // 1000 - 0) if tr_surf_id // 1000 in mcnp_dict and not mcnp_dict[tr_surf_id // 1000].trcl else tr_surf_id // 1000\n                if len(mcnp_dict[cell_id].trcl) > 0 and len(mcnp_dict[cell_id].trcl[0]) == 12 and mcnp_dict[cell_id].trcl[0][3] < 0: mcnp_dict[cell_id].trcl[0] = tuple(mcnp_dict[cell_id].trcl[0][:3]) + (1., 0., 0., 0., 1., 0., 0., 0., 1.)"),
+ ('C04-6', 'C04', K + 'Surface/ConversionSurfaceMCNPToT4.py',
+  "        flip = 1 if u_y > 0 else -1",
+  "        flip = 1"),
+ ('C04-7', 'C04', K + 'Volume/ConstructVolumeT4.py',
+  "                           if abs(int(surf)) >= 1000)",
+  "                           if int(surf) >= 1000)"),
+ ('C04-8', 'C04', 'MIP/geom/transforms.py',
+  "    if dtype[0] == '*':\n        pl[3:12] = map(to_cos, pl[3:12])",
+  "    if dtype[0] == '*':\n        pl[3:11] = map(to_cos, pl[3:11])"),
+ ('C04-9', 'C04', K + 'Transformation/Transformation.py',
+  "    cos_beta = row[0]\n    if sin_beta != 0.0:\n        cos_gamma = -row[1] / sin_beta",
+  "    cos_beta = row[0]\n    if sin_beta != 0.0:\n        cos_gamma = row[1] / sin_beta"),
+ ('C04-10', 'C04', K + 'Surface/ConversionSurfaceMCNPToT4.py',
+  "        center = transform_mat.T.dot(center)",
+  "        center = transform_mat.dot(center)"),
 ]
 
 
